@@ -9,7 +9,9 @@ use anthem::{
         classical_reduction::{completion::Completion as _, gamma::Gamma as _},
         formula_representation::{mu::Mu as _, natural::Natural as _, tau_star::TauStar as _},
     },
-    verif::{arguments::{Decomposition, FormulaRepresentation}, problem, task::{Task as _, strong_equivalence::StrongEquivalenceTask}},
+    verif::{arguments::{Decomposition, FormulaRepresentation}, files::Files, problem, task::{Task as _, external_equivalence::{ExternalEquivalenceTask, ExternalEquivalenceTaskError}, strong_equivalence::StrongEquivalenceTask}},
+    verif::outline::ProofOutlineError,
+    syntax_tree::Node as _,
     verif::simplifying_fol::sigma_0::{classic, ht, intuitionistic},
 };
 
@@ -100,6 +102,8 @@ pub fn run(suite: &str, seed: u64, n: usize, corpus: Option<&Path>) -> Vec<Case>
         "strong" => strong(seed, n, corpus, false),
         "strong_text" => strong(seed, n, corpus, true),
         "tptp" => tptp(seed, n, corpus),
+        "external" => external(seed, n, corpus, false),
+        "external_text" => external(seed, n, corpus, true),
         "substitute" => substitute(seed, n, corpus),
         "rewrite" => rewrite(seed, n, corpus),
         "simplify" => simplify(seed, n, corpus),
@@ -459,6 +463,340 @@ fn tptp(seed: u64, n: usize, corpus: Option<&Path>) -> Vec<Case> {
         let input = sexp::formula(&f);
         let imp = guarded(move || sexp::q(&Format(&f).to_string()));
         cases.push(Case { req: format!("(tptp_formula {input})"), nontrivial: true, imp, tag: "tptp", origin });
+    }
+    cases
+}
+
+// ------------------------------------------------------------------ external equivalence
+
+fn role_name(r: fol::Role) -> &'static str {
+    match r {
+        fol::Role::Assumption => "assumption",
+        fol::Role::Spec => "spec",
+        fol::Role::Lemma => "lemma",
+        fol::Role::Definition => "definition",
+        fol::Role::InductiveLemma => "inductive_lemma",
+    }
+}
+
+fn dir_name(d: fol::Direction) -> &'static str {
+    match d {
+        fol::Direction::Universal => "universal",
+        fol::Direction::Forward => "forward",
+        fol::Direction::Backward => "backward",
+    }
+}
+
+fn anf_sexp(a: &fol::AnnotatedFormula) -> String {
+    format!("({} {} {} {})", role_name(a.role), dir_name(a.direction), sexp::q(&a.name), sexp::formula(&a.formula))
+}
+
+fn spec_sexp(s: &fol::Specification) -> String {
+    sexp::list(s.formulas.iter().map(anf_sexp))
+}
+
+fn ug_sexp(ug: &fol::UserGuide) -> String {
+    sexp::list(ug.entries.iter().map(|e| match e {
+        fol::UserGuideEntry::InputPredicate(p) => format!("(in {})", sexp::pred(p)),
+        fol::UserGuideEntry::OutputPredicate(p) => format!("(out {})", sexp::pred(p)),
+        fol::UserGuideEntry::PlaceholderDeclaration(d) => format!("(ph {} {})", sexp::q(&d.name), sexp::sort(&d.sort)),
+        fol::UserGuideEntry::AnnotatedFormula(a) => format!("(af {})", anf_sexp(a)),
+    }))
+}
+
+fn error_kind(e: &ExternalEquivalenceTaskError) -> &'static str {
+    use ExternalEquivalenceTaskError::*;
+    match e {
+        UnsupportedFormulaRepresentation => "unsupportedFormulaRepresentation",
+        NonTightProgram(_) => "nonTightProgram",
+        ProgramContainsPrivateRecursion(_) => "programContainsPrivateRecursion",
+        InputOutputPredicatesOverlap(_) => "inputOutputPredicatesOverlap",
+        InputPredicateInRuleHead(_) => "inputPredicateInRuleHead",
+        OutputPredicateInUserGuideAssumption(_) => "outputPredicateInUserGuideAssumption",
+        OutputPredicateInSpecificationAssumption(_) => "outputPredicateInSpecificationAssumption",
+        PlaceholdersWithIdenticalNamesDifferentSorts(_) => "placeholdersWithIdenticalNamesDifferentSorts",
+        AssumptionContainsNonInputSymbols(_) => "assumptionContainsNonInputSymbols",
+        SpecificationContainsUnsupportedRoles(_) => "specificationContainsUnsupportedRoles",
+        ProofOutlineError(e) => match e {
+            self::ProofOutlineError::AnnotatedFormulaWithInvalidRole(_) => "annotatedFormulaWithInvalidRole",
+            self::ProofOutlineError::DuplicatedVariables(_) => "duplicatedVariables",
+            self::ProofOutlineError::TakenPredicate(_) => "takenPredicate",
+            self::ProofOutlineError::FreeRhsVariables(_) => "freeRhsVariables",
+            self::ProofOutlineError::UndefinedRhsPredicate { .. } => "undefinedRhsPredicate",
+            self::ProofOutlineError::DefinedPredicateVariableListMismatch(_) => "definedPredicateVariableListMismatch",
+            self::ProofOutlineError::TermsInDefinition { .. } => "termsInDefinition",
+            self::ProofOutlineError::MalformedInductiveLemma(_) => "malformedInductiveLemma",
+            self::ProofOutlineError::MalformedInductiveAntecedent(_) => "malformedInductiveAntecedent",
+            self::ProofOutlineError::MalformedInductiveVariables(_) => "malformedInductiveVariables",
+            self::ProofOutlineError::MalformedInductiveTerm(_) => "malformedInductiveTerm",
+            self::ProofOutlineError::MalformedDefinition(_) => "malformedDefinition",
+            self::ProofOutlineError::InvalidRoleForGeneralLemma(_) => "invalidRoleForGeneralLemma",
+        },
+    }
+}
+
+pub struct ExtTask {
+    pub origin: String,
+    pub spec: either::Either<asp::Program, fol::Specification>,
+    pub program: asp::Program,
+    pub ug: fol::UserGuide,
+    pub po: fol::Specification,
+}
+
+fn atom1(p: &str, t: fol::GeneralTerm) -> fol::Formula {
+    fol::Formula::AtomicFormula(fol::AtomicFormula::Atom(fol::Atom { predicate_symbol: p.into(), terms: vec![t] }))
+}
+
+/// Task-aware generator: predicates have roles (input / output / private) and a rank so that most
+/// programs are tight and free of private recursion; each condition is violated now and then.
+fn gen_ext_task(rng: &mut Rng, origin: String) -> ExtTask {
+    let mut g = Gen::new(rng.fork());
+    g.nvars = 3 + g.rng.below(6);
+    let inputs = ["in1", "in2"];
+    let outputs = ["out1", "out2"];
+    let privs = ["aux", "q", "r"];
+    let sloppy = g.rng.chance(1, 5); // allow violations of the applicability conditions
+    let depth = g.rng.below(2);
+    let mut mk_program = |g: &mut Gen, privs: &[&str]| -> asp::Program {
+        let nrules = 1 + g.rng.below(4);
+        let mut rules = vec![];
+        for _ in 0..nrules {
+            // head: output or private (rarely an input when sloppy)
+            let heads: Vec<&str> = outputs.iter().chain(privs.iter()).cloned().collect();
+            let hname = if sloppy && g.rng.chance(1, 6) { inputs[0] } else { heads[g.rng.below(heads.len())] };
+            let hrank = heads.iter().position(|x| *x == hname).unwrap_or(0);
+            let arity = if hname == "out2" { 0 } else { 1 };
+            let hatom = asp::Atom { predicate_symbol: hname.into(), terms: (0..arity).map(|_| g.aterm(depth)).collect() };
+            let head = match g.rng.below(10) {
+                0 => asp::Head::Falsity,
+                1 | 2 if !privs.contains(&hname) || sloppy => asp::Head::Choice(hatom),
+                _ => asp::Head::Basic(hatom),
+            };
+            let nb = g.rng.below(4);
+            let mut body = vec![];
+            for _ in 0..nb {
+                if g.rng.chance(1, 3) {
+                    body.push(g.abody_atom(depth));
+                    if let asp::AtomicFormula::Literal(l) = body.last_mut().unwrap() {
+                        l.atom.predicate_symbol = inputs[g.rng.below(2)].into();
+                        l.atom.terms.truncate(1);
+                        if l.atom.terms.is_empty() { l.atom.terms.push(g.aterm(0)); }
+                    }
+                } else {
+                    // a predicate of higher rank (so that the dependency order is acyclic) unless sloppy
+                    let pool: Vec<&str> = if sloppy { heads.clone() } else { heads.iter().skip(hrank + 1).cloned().chain(inputs.iter().cloned()).collect() };
+                    let name = pool[g.rng.below(pool.len())];
+                    let ar = if name == "out2" { 0 } else { 1 };
+                    let sign = match g.rng.below(4) { 0 => asp::Sign::Negation, 1 => asp::Sign::DoubleNegation, _ => asp::Sign::NoSign };
+                    body.push(asp::AtomicFormula::Literal(asp::Literal { sign, atom: asp::Atom { predicate_symbol: name.into(), terms: (0..ar).map(|_| g.aterm(depth)).collect() } }));
+                }
+            }
+            rules.push(asp::Rule { head, body: asp::Body { formulas: body } });
+        }
+        asp::Program { rules }
+    };
+    let left_privs: Vec<&str> = if g.rng.chance(1, 2) { vec!["aux", "q"] } else { vec!["q", "r"] };
+    let right_privs: Vec<&str> = if g.rng.chance(1, 2) { vec!["aux", "q"] } else { vec!["q_p", "q"] };
+    let program = mk_program(&mut g, &right_privs);
+    let _ = privs;
+    // user guide
+    let mut entries = vec![];
+    for (i, p) in inputs.iter().enumerate() {
+        if i == 0 || g.rng.chance(2, 3) {
+            entries.push(fol::UserGuideEntry::InputPredicate(fol::Predicate { symbol: p.to_string(), arity: 1 }));
+        }
+    }
+    entries.push(fol::UserGuideEntry::OutputPredicate(fol::Predicate { symbol: "out1".into(), arity: 1 }));
+    if g.rng.chance(2, 3) {
+        entries.push(fol::UserGuideEntry::OutputPredicate(fol::Predicate { symbol: "out2".into(), arity: 0 }));
+    }
+    if sloppy && g.rng.chance(1, 4) {
+        entries.push(fol::UserGuideEntry::OutputPredicate(fol::Predicate { symbol: "in1".into(), arity: 1 }));
+    }
+    for name in ["n", "a", "c"] {
+        if g.rng.chance(1, 2) {
+            entries.push(fol::UserGuideEntry::PlaceholderDeclaration(fol::PlaceholderDeclaration { name: name.into(), sort: g.sort() }));
+        }
+    }
+    if sloppy && g.rng.chance(1, 4) {
+        entries.push(fol::UserGuideEntry::PlaceholderDeclaration(fol::PlaceholderDeclaration { name: "n".into(), sort: fol::Sort::Symbol }));
+    }
+    if g.rng.chance(1, 2) {
+        let v = fol::GeneralTerm::Variable("X".into());
+        let body = fol::Formula::BinaryFormula { connective: fol::BinaryConnective::Implication, lhs: Box::new(atom1("in1", v.clone())), rhs: Box::new(if sloppy && g.rng.chance(1, 3) { atom1("out1", v) } else { fol::Formula::AtomicFormula(fol::AtomicFormula::Comparison(fol::Comparison { term: v, guards: vec![fol::Guard { relation: fol::Relation::GreaterEqual, term: fol::GeneralTerm::SymbolicTerm(fol::SymbolicTerm::Symbol("n".into())) }] })) }) };
+        entries.push(fol::UserGuideEntry::AnnotatedFormula(fol::AnnotatedFormula { role: if g.rng.chance(1, 8) { fol::Role::Lemma } else { fol::Role::Assumption }, direction: *g.rng.pick(&[fol::Direction::Universal, fol::Direction::Universal, fol::Direction::Forward, fol::Direction::Backward]), name: if g.rng.chance(1, 2) { "ug_assumption".into() } else { String::new() }, formula: fol::Formula::QuantifiedFormula { quantification: fol::Quantification { quantifier: fol::Quantifier::Forall, variables: vec![fol::Variable { name: "X".into(), sort: fol::Sort::General }] }, formula: Box::new(body) } }));
+    }
+    let ug = fol::UserGuide { entries };
+    // specification side
+    let spec = if g.rng.chance(2, 3) {
+        either::Either::Left(mk_program(&mut g, &left_privs))
+    } else {
+        let mut fs = vec![];
+        let k = 1 + g.rng.below(3);
+        for i in 0..k {
+            let role = match g.rng.below(10) { 0 | 1 => fol::Role::Assumption, 2 if sloppy => fol::Role::Lemma, 3 if sloppy => fol::Role::Definition, _ => fol::Role::Spec };
+            let mut gg = Gen::new(g.rng.fork());
+            gg.nvars = 3;
+            let d = 1 + gg.rng.below(2);
+            let mut f = gg.formula(d).universal_closure();
+            // use the task's predicates
+            f = rename_to_task_preds(f, role == fol::Role::Assumption && !sloppy);
+            fs.push(fol::AnnotatedFormula { role, direction: *g.rng.pick(&[fol::Direction::Universal, fol::Direction::Universal, fol::Direction::Forward, fol::Direction::Backward]), name: if g.rng.chance(1, 2) { format!("s{i}") } else { String::new() }, formula: f });
+        }
+        either::Either::Right(fol::Specification { formulas: fs })
+    };
+    // proof outline
+    let mut po = vec![];
+    let k = g.rng.below(4);
+    for i in 0..k {
+        let direction = *g.rng.pick(&[fol::Direction::Universal, fol::Direction::Forward, fol::Direction::Backward]);
+        let name = if g.rng.chance(2, 3) { format!("l{i}") } else { String::new() };
+        match g.rng.below(4) {
+            0 => {
+                // definition of a fresh predicate
+                let x = fol::Variable { name: "X".into(), sort: if g.rng.chance(1, 3) { fol::Sort::Integer } else { fol::Sort::General } };
+                let dname = if sloppy && g.rng.chance(1, 3) { "out1".to_string() } else { format!("def{i}") };
+                let lhs = atom1(&dname, x.clone().into());
+                let rhs = if g.rng.chance(1, 2) { atom1("in1", x.clone().into()) } else { fol::Formula::BinaryFormula { connective: fol::BinaryConnective::Conjunction, lhs: Box::new(atom1("out1", x.clone().into())), rhs: Box::new(atom1(if sloppy && g.rng.chance(1, 3) { "undefined" } else { "in1" }, if sloppy && g.rng.chance(1, 4) { fol::GeneralTerm::Variable("Y".into()) } else { x.clone().into() })) } };
+                let vars = if sloppy && g.rng.chance(1, 4) { vec![x.clone(), x.clone()] } else { vec![x.clone()] };
+                po.push(fol::AnnotatedFormula { role: fol::Role::Definition, direction, name, formula: fol::Formula::QuantifiedFormula { quantification: fol::Quantification { quantifier: fol::Quantifier::Forall, variables: vars }, formula: Box::new(fol::Formula::BinaryFormula { connective: fol::BinaryConnective::Equivalence, lhs: Box::new(lhs), rhs: Box::new(rhs) }) } });
+            }
+            1 => {
+                // inductive lemma: forall N$i (N$i >= n -> F(N))
+                let nvar = fol::Variable { name: "N".into(), sort: fol::Sort::Integer };
+                let n = g.numeral();
+                let ante = fol::Formula::AtomicFormula(fol::AtomicFormula::Comparison(fol::Comparison { term: nvar.clone().into(), guards: vec![fol::Guard { relation: if sloppy && g.rng.chance(1, 4) { fol::Relation::Greater } else { fol::Relation::GreaterEqual }, term: fol::GeneralTerm::IntegerTerm(fol::IntegerTerm::Numeral(n)) }] }));
+                let body = match g.rng.below(3) {
+                    0 => atom1("out1", nvar.clone().into()),
+                    1 => fol::Formula::QuantifiedFormula { quantification: fol::Quantification { quantifier: fol::Quantifier::Exists, variables: vec![fol::Variable { name: "N".into(), sort: fol::Sort::Integer }] }, formula: Box::new(fol::Formula::BinaryFormula { connective: fol::BinaryConnective::Conjunction, lhs: Box::new(atom1("in1", nvar.clone().into())), rhs: Box::new(atom1("out1", nvar.clone().into())) }) },
+                    _ => fol::Formula::BinaryFormula { connective: fol::BinaryConnective::Implication, lhs: Box::new(atom1("in1", nvar.clone().into())), rhs: Box::new(atom1("out1", fol::GeneralTerm::Variable("Y".into()))) },
+                };
+                let mut vars = vec![nvar];
+                if body.free_variables().iter().any(|v| v.name == "Y") && !(sloppy && g.rng.chance(1, 3)) { vars.push(fol::Variable { name: "Y".into(), sort: fol::Sort::General }); }
+                po.push(fol::AnnotatedFormula { role: fol::Role::InductiveLemma, direction, name, formula: fol::Formula::QuantifiedFormula { quantification: fol::Quantification { quantifier: fol::Quantifier::Forall, variables: vars }, formula: Box::new(fol::Formula::BinaryFormula { connective: fol::BinaryConnective::Implication, lhs: Box::new(ante), rhs: Box::new(body) }) } });
+            }
+            _ => {
+                let mut gg = Gen::new(g.rng.fork());
+                gg.nvars = 3;
+                let d = 1 + gg.rng.below(2);
+                let f = rename_to_task_preds(gg.formula(d), false);
+                po.push(fol::AnnotatedFormula { role: if sloppy && g.rng.chance(1, 6) { fol::Role::Spec } else { fol::Role::Lemma }, direction, name, formula: f });
+            }
+        }
+    }
+    ExtTask { origin, spec, program, ug, po: fol::Specification { formulas: po } }
+}
+
+/// map the generic predicate names of the formula generator onto the task vocabulary
+fn rename_to_task_preds(f: fol::Formula, inputs_only: bool) -> fol::Formula {
+    use anthem::convenience::apply::Apply as _;
+    f.apply(&mut |g| match g {
+        fol::Formula::AtomicFormula(fol::AtomicFormula::Atom(mut a)) => {
+            let name = if inputs_only { "in1" } else {
+                match a.predicate_symbol.as_str() { "p" => "out1", "q" => "in1", "r" => "in2", "s" => "aux", _ => "out1" }
+            };
+            a.predicate_symbol = name.into();
+            a.terms.truncate(1);
+            if a.terms.is_empty() { a.terms.push(fol::GeneralTerm::Variable("X".into())); }
+            fol::Formula::AtomicFormula(fol::AtomicFormula::Atom(a))
+        }
+        x => x,
+    })
+}
+
+fn example_tasks() -> Vec<ExtTask> {
+    let mut out = vec![];
+    let root = std::path::Path::new("/repo/res/examples/external_equivalence");
+    let mut dirs: Vec<std::path::PathBuf> = vec![];
+    fn walk(d: &std::path::Path, out: &mut Vec<std::path::PathBuf>) {
+        if let Ok(rd) = std::fs::read_dir(d) {
+            let mut es: Vec<_> = rd.filter_map(|e| e.ok()).map(|e| e.path()).collect();
+            es.sort();
+            if es.iter().any(|p| p.extension().map(|x| x == "ug").unwrap_or(false)) { out.push(d.to_path_buf()); }
+            for e in es { if e.is_dir() && e.file_name().map(|n| n != "out").unwrap_or(true) { walk(&e, out); } }
+        }
+    }
+    walk(root, &mut dirs);
+    for d in dirs {
+        let Ok(files) = Files::sort(vec![d.clone()]) else { continue };
+        let (Some(spec), Some(prog), Some(ug)) = (files.specification(), files.program(), files.user_guide()) else { continue };
+        let spec = match spec {
+            either::Either::Left(p) => match asp::Program::from_file(p) { Ok(x) => either::Either::Left(x), Err(_) => continue },
+            either::Either::Right(p) => match fol::Specification::from_file(p) { Ok(x) => either::Either::Right(x), Err(_) => continue },
+        };
+        let Ok(program) = asp::Program::from_file(prog) else { continue };
+        let Ok(ug) = fol::UserGuide::from_file(ug) else { continue };
+        let po = files.proof_outline().and_then(|p| fol::Specification::from_file(p).ok()).unwrap_or_else(fol::Specification::empty);
+        out.push(ExtTask { origin: format!("example:{}", d.display()), spec, program, ug, po });
+    }
+    out
+}
+
+struct Flags { dec: Decomposition, dir: fol::Direction, simplify: bool, brk: bool }
+
+fn corpus_ext_tasks(corpus: Option<&Path>) -> Vec<(ExtTask, Flags)> {
+    let mut out = vec![];
+    for l in corpus_lines(corpus, "external") {
+        let parts: Vec<&str> = l.split(";;").map(str::trim).collect();
+        if parts.len() != 6 { continue; }
+        let spec = if let Some(t) = parts[1].strip_prefix("prog:") {
+            match t.parse::<asp::Program>() { Ok(p) => either::Either::Left(p), Err(_) => continue }
+        } else if let Some(t) = parts[1].strip_prefix("spec:") {
+            match t.parse::<fol::Specification>() { Ok(p) => either::Either::Right(p), Err(_) => continue }
+        } else { continue };
+        let (Ok(program), Ok(ug), Ok(po)) = (parts[2].parse::<asp::Program>(), parts[3].parse::<fol::UserGuide>(), parts[4].parse::<fol::Specification>()) else { continue };
+        let fl: Vec<&str> = parts[5].split_whitespace().collect();
+        if fl.len() != 4 { continue; }
+        let flags = Flags {
+            dec: if fl[0] == "independent" { Decomposition::Independent } else { Decomposition::Sequential },
+            dir: match fl[1] { "forward" => fol::Direction::Forward, "backward" => fol::Direction::Backward, _ => fol::Direction::Universal },
+            simplify: fl[2] == "true", brk: fl[3] == "true" };
+        out.push((ExtTask { origin: format!("corpus:{}", parts[0]), spec, program, ug, po }, flags));
+    }
+    out
+}
+
+fn external(seed: u64, n: usize, corpus: Option<&Path>, text: bool) -> Vec<Case> {
+    let mut cases = vec![];
+    let mut rng = Rng::new(seed ^ 0x88);
+    let mut fixed: Vec<(ExtTask, Option<Flags>)> = corpus_ext_tasks(corpus).into_iter().map(|(t, f)| (t, Some(f))).collect();
+    fixed.extend(example_tasks().into_iter().map(|t| (t, None)));
+    let mut tasks: Vec<(ExtTask, Option<Flags>)> = fixed;
+    for i in 0..n {
+        tasks.push((gen_ext_task(&mut rng, format!("seed:{seed}:{i}")), None));
+    }
+    for (t, flags) in tasks {
+        let mut dec = if rng.chance(1, 2) { Decomposition::Independent } else { Decomposition::Sequential };
+        let mut dir = *rng.pick(&[fol::Direction::Universal, fol::Direction::Universal, fol::Direction::Forward, fol::Direction::Backward]);
+        let mut rep = if rng.chance(1, 25) { FormulaRepresentation::Mu } else { FormulaRepresentation::TauStar };
+        let mut bypass = rng.chance(1, 4);
+        let mut simplify = rng.chance(1, 2);
+        let mut brk = rng.chance(1, 2);
+        if let Some(f) = flags {
+            dec = f.dec; dir = f.dir; simplify = f.simplify; brk = f.brk; bypass = false; rep = FormulaRepresentation::TauStar;
+        }
+        let spec_s = match &t.spec {
+            either::Either::Left(p) => format!("(prog {})", sexp::program(p)),
+            either::Either::Right(s) => format!("(spec {})", spec_sexp(s)),
+        };
+        let req = format!(
+            "({} {} {} {} {} {} {} {} {} {} {} {PASS_BOUND})",
+            if text { "external_text" } else { "external" },
+            spec_s, sexp::program(&t.program), ug_sexp(&t.ug), spec_sexp(&t.po),
+            if dec == Decomposition::Independent { "independent" } else { "sequential" },
+            dir_name(dir),
+            match rep { FormulaRepresentation::Mu => "mu", FormulaRepresentation::TauStar => "tau_star" },
+            bypass, simplify, brk);
+        let imp = guarded(move || {
+            let task = ExternalEquivalenceTask { specification: t.spec, program: t.program, user_guide: t.ug, proof_outline: t.po, decomposition: dec, direction: dir, formula_representation: rep, bypass_tightness: bypass, simplify, break_equivalences: brk };
+            match task.decompose() {
+                Ok(w) if text => sexp::list(w.data.iter().map(|p| format!("({} {})", sexp::q(&p.name), sexp::q(&p.to_string())))),
+                Ok(w) => sexp::list(w.data.iter().map(problem_sexp)),
+                Err(e) => format!("(error {})", error_kind(&e)),
+            }
+        });
+        let nontrivial = !imp.starts_with("(error");
+        cases.push(Case { req, nontrivial, imp, tag: if text { "external_text" } else { "external" }, origin: t.origin });
     }
     cases
 }
